@@ -67,6 +67,12 @@ def _sym_fmt(f, args):
     return models.sym_fmt(f, args)
 
 
+def _sym_setitem(b, a, v):
+    from . import models
+
+    return models.sym_setitem(b, a, v)
+
+
 def _sym_join(sep, items):
     from . import symstr
 
@@ -136,6 +142,13 @@ class _T(ast.NodeTransformer):
             return ast.Call(ast.Name("_sym_join", ast.Load()), [f.value, node.args[0]], [])
         return node
 
+    def visit_Assign(self, node):
+        self.generic_visit(node)
+        if len(node.targets) == 1 and isinstance(node.targets[0], ast.Subscript) and not isinstance(node.targets[0].slice, ast.Slice):
+            t = node.targets[0]
+            return ast.Expr(ast.Call(ast.Name("_sym_setitem", ast.Load()), [t.value, t.slice, node.value], []))
+        return node
+
     def visit_BinOp(self, node):
         self.generic_visit(node)
         if isinstance(node.op, ast.Mod) and isinstance(node.left, ast.Constant) and isinstance(node.left.value, str):
@@ -151,7 +164,7 @@ class _Loader(importlib.machinery.SourceFileLoader):
         return compile(tree, path, "exec", dont_inherit=True, optimize=_optimize)
 
     def exec_module(self, module):
-        module.__dict__.update(_sym_in=_sym_in, _sym_getitem=_sym_getitem, _sym_fmt=_sym_fmt, _sym_join=_sym_join, _cov=_cov, _loop_tick=_loop_tick)
+        module.__dict__.update(_sym_in=_sym_in, _sym_getitem=_sym_getitem, _sym_fmt=_sym_fmt, _sym_join=_sym_join, _sym_setitem=_sym_setitem, _cov=_cov, _loop_tick=_loop_tick)
         # module-level code must see the datetime model too (e.g. a module constant computed with fromtimestamp())
         from . import symdt
 
